@@ -316,12 +316,59 @@ def onecopy(ctx: Any) -> List[Ob]:
     return kv_obligations(ctx, 'C20.ONECOPY')
 
 
+RAW_CASE_EXEMPT = {
+    # (function qual): reason -- a site that compares spellings on purpose and is not an identity decision
+    'DNSQuestion.answered_by': 'a matching predicate of the public API (does this record answer the question), not record identity; left as the library defines it',
+    'DNSCache.current_entry_with_name_and_alias': 'conflict detection compares the proposed instance name with the cached pointer target as spelled (C09 quantifies over the same spelling)',
+}
+_SPELLED = {'name', 'alias', 'server'}  # NSEC next_name is rdata compared as spelled (the property lower-cases only owner, PTR target and SRV target)
+
+
+@rule('C20.CASE', 'N', expect_min=1)
+def case(ctx: Any) -> List[Ob]:
+    """Identity decisions never go through a name as spelled: in the classes that decide whether two records are the same
+    record (the record classes, the known-answer set, the cache, the question history) no equality / membership test and
+    no set or dict key is built from `.name`, `.alias` or `.server` -- only from the lower-cased twins
+    (`key`, `alias_key`, `server_key`) or from whole records.  A pre-filter on the spelled name in front of a hash lookup
+    makes records that are equal (and hash equal) distinct again for that consumer."""
+    R = 'C20.CASE'
+    prog = ctx.prog
+    scope_classes = [c for c in prog.classes.values() if c.full.startswith('zeroconf._dns.') or c.full in ('zeroconf._cache.DNSCache', 'zeroconf._history.QuestionHistory')]
+    obs: List[Ob] = []
+    n_funcs = 0
+    for c in sorted(scope_classes, key=lambda x: x.full):
+        for f in c.methods.values():
+            if f.name in ('__repr__', '__str__', 'to_string', '_entry_to_string', 'write') or f.name.startswith('__repr'):
+                continue
+            n_funcs += 1
+            sites = []
+            for n in walk_local_ordered(f.node):
+                if isinstance(n, ast.Compare) and any(isinstance(o, (ast.Eq, ast.NotEq, ast.In, ast.NotIn)) for o in n.ops):
+                    for x in [n.left] + list(n.comparators):
+                        if isinstance(x, ast.Attribute) and x.attr in _SPELLED:
+                            sites.append((n, x))
+                elif isinstance(n, (ast.SetComp, ast.DictComp)):
+                    k = n.elt if isinstance(n, ast.SetComp) else n.key
+                    if isinstance(k, ast.Attribute) and k.attr in _SPELLED:
+                        sites.append((n, k))
+                elif isinstance(n, ast.Call) and isinstance(n.func, ast.Attribute) and n.func.attr in ('add', 'setdefault', 'get', 'pop', 'discard') and n.args and isinstance(n.args[0], ast.Attribute) and n.args[0].attr in _SPELLED:
+                    sites.append((n, n.args[0]))
+                elif isinstance(n, ast.Subscript) and isinstance(n.slice, ast.Attribute) and n.slice.attr in _SPELLED:
+                    sites.append((n, n.slice))
+            for n, x in sites:
+                why = RAW_CASE_EXEMPT.get(f.qual)
+                obs.append(ob(R, f, n, 'identity is decided on lower-cased keys, never on a name as spelled' if why is None else f'spelling compared on purpose: {why}', why is not None, f'`{norm(x)}` is the name as spelled; records whose names differ only in case are the same record'))
+    obs.append(ob(R, ('src/zeroconf/_dns.py', '<identity consumers>'), f'{n_funcs} methods of the record classes, DNSRRSet, DNSCache and QuestionHistory', 'no further use of a spelled name as a comparison operand or container key', True))
+    return obs
+
+
 EXPLANATION = (
     'C20.CONGRUENCE (decided structurally): for DNSQuestion and each of the six record classes the set of fields '
     'compared by __eq__ (through _eq and _dns_entry_matches), the set of fields hashed into the stored _hash and the '
     "identity set the property states are extracted from the AST and must be equal; isinstance guards, __hash__, "
     'masking of the class field, lower-cased twins and construction-only writes of hashed fields are checked. '
     'This decides the property for all pairs of records under assumption A1 (builtin hash/eq congruence). '
-    'C20.ONECOPY (necessary): the cache indexes hold one object per identity (an equal key is dropped before the store).'
+    'C20.ONECOPY (necessary): the cache indexes hold one object per identity (an equal key is dropped before the store). '
+    'C20.CASE (necessary): the identity consumers (record classes, known-answer set, cache, question history) never compare or key on a name as spelled.'
 )
-RULES = [congruence, onecopy]
+RULES = [congruence, onecopy, case]
